@@ -18,7 +18,7 @@ TECHNIQUE = ('stateless bounded model checking: complete enumeration of path sha
 LEVEL_TEXT = ('Every path built from 0..5 (7 thorough) segments over {plain, '
               'empty, dotted, spaced} with and without leading and trailing '
               'slash is split with every (minsegs 1..4, maxsegs in {None, 0, '
-              'min-1..min+2}, rest_with_last) and compared - result list or '
+              'min-1..min+2, 9, 10, 17, 64}, rest_with_last) and compared - result list or '
               'ValueError - with a reference; every list of 1..3 (4) items '
               'over an alphabet containing commas, quotes, backslashes, '
               'leading/trailing blanks and the empty string is quoted, joined '
@@ -30,6 +30,9 @@ LEVEL_NOTE = ('Trusted: the reference split (vlib/checks/c19.py ref_split_path) 
               'spaces). Segment and item alphabets are the listed ones.')
 
 SEGS = ['a', '', 'b.c', 'd e']
+# text the error path may treat differently from the success path: non-ASCII, a lone
+# surrogate (what os.fsdecode gives for an undecodable byte), percent and quote signs
+SEGS_X = ['caf\u00e9', '\udce9x', '100%', 'q"\'']
 ITEMS = ['a', 'a b', 'a,b', 'a"b', 'a\\b', '', ' a', 'x, ', '"', 'ab\\', 'k=v', "it's",
          "'a'", "'a", "b'"]
 
@@ -66,6 +69,10 @@ def _path_case(vals, acc):
         maxsegs = None
     elif dmax == 'zero':
         maxsegs = 0
+    elif isinstance(dmax, str):
+        maxsegs = int(dmax[1:])           # '=10': an absolute value
+        if maxsegs < minsegs:
+            return
     else:
         maxsegs = minsegs + dmax
         if maxsegs < 0:
@@ -143,7 +150,14 @@ def run(ctx):
     for n in range(0, maxn + 1):
         seglists += list(itertools.product(SEGS, repeat=n))
     E.run(rep, 'split_path', [seglists, [True, False], [False, True], [1, 2, 3, 4],
-                              ['none', 'zero', -1, 0, 1, 2], [False, True]], _path_case)
+                              ['none', 'zero', -1, 0, 1, 2, '=9', '=10', '=17', '=64'], [False, True]],
+          _path_case)
+    xlists = []
+    for n in range(1, 4 + 1):
+        xlists += [t for t in itertools.product(SEGS[:3] + SEGS_X, repeat=n)
+                   if any(x in SEGS_X for x in t)]
+    E.run(rep, 'split_path_text', [xlists, [True, False], [False, True], [1, 2, 3],
+                                   ['none', 0, 1, '=9'], [False, True]], _path_case)
     lists = []
     for n in (1, 2, 3) + ((4,) if ctx.thorough else ()):
         lists += list(itertools.product(ITEMS if n < 4 else ITEMS[:8], repeat=n))
@@ -167,7 +181,8 @@ def run(ctx):
                          'path) resp. every item list; rejected paths are evaluated too (counted in '
                          'evaluations)')
     rep.notes['bounds'] = {'segments': SEGS, 'max_segments': maxn, 'minsegs': [1, 2, 3, 4],
-                           'maxsegs': ['None', 0, 'min-1', 'min', 'min+1', 'min+2'],
+                           'maxsegs': ['None', 0, 'min-1', 'min', 'min+1', 'min+2', 9, 10, 17, 64],
+                           'text_segments': SEGS_X,
                            'items': ITEMS, 'max_items': 4 if ctx.thorough else 3}
     return rep
 
